@@ -646,8 +646,6 @@ func c12Judge(c *mon.Ctx, in *c12In) {
 		}
 		switch {
 		case errors.Is(ferr, bt.ErrInsufficientFunds):
-		case wrapped && ferr != nil && errors.Is(ferr, supplierErr):
-			c.Count("exhausted:wrapped-error-returned-as-is")
 		default:
 			c.Violationf("C12:exhaustion-not-reported-as-insufficient-funds", "the supplier reported exhaustion with deficit %v left, Fund returned %v; %s", d, ferr, describe())
 		}
